@@ -1,6 +1,7 @@
 import LentilVerif.Model.Heap
 import LentilVerif.Lemmas.Heap
 import LentilVerif.Props.C04
+import LentilVerif.Gen.InplaceGate
 /-! # C10 — calls are pure: no hidden mutation of inputs, no dependence on call history
 
 **Partial by nature** (DESIGN §5 C10): the theorems are about *effect summaries*. What each public function may write is
@@ -17,6 +18,18 @@ in-place (explicit output buffers, accumulate-into-array, scratch, in-place tilt
 editing methods). (Two hidden writes the scan found — `Spectrum.bin` converting `self`, `Rotate.__init__` scaling an
 ndarray `angle` — were reported and fixed in the repository; their witnesses are corpus cases.) -/
 theorem documented_inplace_only : tableOK Gen.effTable = true := by decide +kernel
+
+/-- **the `inplace=` gate of the heap model is the source's** (regenerated `Gen.effInplaceGates`: every function of the package with an
+`inplace` parameter, its gate statement and its write sites classified by the name they go through): the functions the model switches
+by the flag (`inplaceGated`, hand list) are exactly those; with the flag off each works on `self.copy()`; NO write site goes through
+`self` directly (it would write the caller's plane whatever the flag says); and the attributes written through the gate variable are
+write paths of the function's row in the effect table — a second `inplace=` function, a gate that stops copying, or a write that
+bypasses the gate variable breaks this proof -/
+theorem inplace_gate_follows_source :
+    Gen.effInplaceGates.map (·.1) = inplaceGated ∧
+    (∀ g ∈ Gen.effInplaceGates, g.2.1 = "self" ∧ g.2.2.1 = "self.copy()" ∧ g.2.2.2.1 = []) ∧
+    (∀ g ∈ Gen.effInplaceGates, ∀ r ∈ Gen.effTable, r.fn = g.1 → ∀ a ∈ g.2.2.2.2, (g.2.1, a) ∈ r.writePaths) := by
+  decide +kernel
 
 /-- slot-specific: the in-place write sites of the documented in-place functions go through exactly the attributes the
 documentation names — `fit_tilt` touches only `opd` and `tilt` (never amplitude, mask or pixel scale), each plane/spectrum/wavefront
